@@ -19,7 +19,7 @@ RULE = ("fault enumeration on real runs of csvdump/unspentcsvdump/balances. Inpu
         "(exit 0 and outputs byte-identical to the undisturbed run and no *.tmp) or (exit!=0 and no final-named file); (2) trace spec "
         "over the strace log of every traced run: a final name only ever appears through rename(tmp->final) and no write reaches a file "
         "after it carries its final name; (3) after SIGKILL no final-named file differs from the undisturbed output. "
-        "distinct = (callback, fault kind, position class, output size class, outcome) signatures")
+        "Mid-run faults: EMFILE/ENOENT/EACCES/EIO injected (strace) at every open and every read of a blk file; a blk file unlinked / shrunk while the run is suspended (SIGSTOP) after its first blocks; a blk file holding 255..1024 blocks of the range removed / emptied / cut: exit!=0, failing height = the block being fetched (hook log), no final-named file. distinct = (callback, fault kind, position class, output size class, outcome) signatures")
 
 CALLBACKS = ["csvdump", "unspentcsvdump", "balances"]
 ERR_RE = re.compile(r"Error at height (\d+):")
